@@ -45,6 +45,9 @@ CLAIMED = {
  "C20": ("property-based testing: model-based op sequences (SeekableChain vs Cursor); generated zip archives with hostile names vs. extraction oracle with directory snapshots",
          "Generated-history exploration of the volume chain against std::io::Cursor over the concatenation; generated archives (own stored writer incl. duplicate/hostile names, deflate via zip crate, multi volume on disk) through list/extract_to_dir/extract_archives with glob patterns.",
          "out-of-range seeks are outside the equivalence oracle; glob crate trusted; zip crate's reader is part of the system under test", "4/C20"),
+ "C19": ("property-based testing: input/output stream invariant through generated plugin subsets and orders; anonymiser mapping (function+injective) and lifecycle-structure metamorphic relation",
+         "Generated-input/configuration exploration: trigger-shaped and arbitrary traffic through every subset/order of the decoder plugins built from the repository configs; per message only text / missing extended header / (rewrite) timestamp may differ; anonymised vs original trace give identical lifecycle partition and boundaries.",
+         "plugins configured from /repo/tests; the repository FIBEX has no CAN channel so the CAN plugin is only exercised as pass-through", "4/C19"),
 }
 PENDING = {}
 def main():
